@@ -382,6 +382,14 @@ theorem off_withCb {s : State} (ha : OffAll s) (src : Nat) (api : CbApi) (script
           have hb2 : h2.kind.isBlockAddr = true := by rw [hthin]; rfl
           exact ⟨(hp.1.del _ k).set _ src (ho2.blkBlk hb2 (h' := ThinArc.of_arc (ThinArc.thick s.mem h2)) rfl rfl),
             ho2.blkBlk hb2 (h' := ThinArc.thick s.mem h2) rfl rfl, fun _ => rfl⟩)
+        (by
+          intro s t k h2 hp hne hlk hthin hapi
+          have ho2 := hp.1.slot hlk
+          have hb2 : h2.kind.isBlockAddr = true := by rw [hthin]; rfl
+          have hbt : t.kind.isBlockAddr = true := by rw [hp.2.2 hapi]; rfl
+          exact ⟨((hp.1.set _ k (hp.2.1.blkBlk hbt (h' := ThinArc.of_arc t) rfl rfl)).set _ src
+              (ho2.blkBlk hb2 (h' := ThinArc.of_arc (ThinArc.thick s.mem h2)) rfl rfl)),
+            ho2.blkBlk hb2 (h' := ThinArc.thick s.mem h2) rfl rfl, fun _ => rfl⟩)
         script s t "" ⟨ha, transientOf_off ht (ha.slot hs), hkind⟩
       exact hres
     · exact ha
